@@ -321,6 +321,35 @@ def post(pool, pairs, tier, rng):
 
 
 # ---- generation of histories (main process) -----------------------------------------------------------------
+def near_neighbour(rng: random.Random, T: dict, how: str | None = None) -> list:
+    "a generate op for a configuration that differs from the target T in one respect only"
+    c = json.loads(json.dumps(T))
+    c["applied_filters"] = []
+    how = how or rng.choice(["same", "retyped-kwargs", "n_mazes", "seed", "generator", "endpoints"])
+    if how == "retyped-kwargs":
+        kw = c.get("maze_ctor_kwargs", {})
+        for k in sorted(kw):
+            v = kw[k]
+            if isinstance(v, bool):
+                continue
+            if isinstance(v, float) and v == int(v):
+                kw[k] = int(v)
+            elif isinstance(v, int):
+                kw[k] = float(v) if v <= 1 else v
+    elif how == "n_mazes":
+        c["n_mazes"] = max(1, min(8, c["n_mazes"] + rng.choice([-1, 1, 2])))
+    elif how == "seed":
+        c["seed"] = (c.get("seed", 42) + 1) % 2**31
+    elif how == "generator":
+        c["maze_ctor"] = rng.choice([g for g in _ds.GENS if g != c["maze_ctor"]])
+        c["maze_ctor_kwargs"] = {}
+    elif how == "endpoints":
+        c["endpoint_kwargs"] = _ds.rand_endpoint_kwargs(rng, c["grid_n"], True)
+    if c["n_mazes"] > 20:
+        c["n_mazes"] = rng.randint(1, 6)
+    return ["generate", c, False, rng.choice(["generate", "from_config"]), {}]
+
+
 def rand_noise(rng: random.Random, T: dict) -> list:
     r = rng.random()
     if r < 0.22:
@@ -333,31 +362,7 @@ def rand_noise(rng: random.Random, T: dict) -> list:
     if r < 0.50:
         # a near neighbour of the target generated beforehand: anything the library memoises under a key that is only *part*
         # of a configuration (grid size, an argument's value regardless of its type, the name, ...) is shared with the probe
-        c = json.loads(json.dumps(T))
-        c["applied_filters"] = []
-        how = rng.choice(["same", "retyped-kwargs", "n_mazes", "seed", "generator", "endpoints"])
-        if how == "retyped-kwargs":
-            kw = c.get("maze_ctor_kwargs", {})
-            for k in sorted(kw):
-                v = kw[k]
-                if isinstance(v, bool):
-                    continue
-                if isinstance(v, float) and v == int(v):
-                    kw[k] = int(v)
-                elif isinstance(v, int):
-                    kw[k] = float(v) if v <= 1 else v
-        elif how == "n_mazes":
-            c["n_mazes"] = max(1, min(8, c["n_mazes"] + rng.choice([-1, 1, 2])))
-        elif how == "seed":
-            c["seed"] = (c.get("seed", 42) + 1) % 2**31
-        elif how == "generator":
-            c["maze_ctor"] = rng.choice([g for g in _ds.GENS if g != c["maze_ctor"]])
-            c["maze_ctor_kwargs"] = {}
-        elif how == "endpoints":
-            c["endpoint_kwargs"] = _ds.rand_endpoint_kwargs(rng, c["grid_n"], True)
-        if c["n_mazes"] > 20:
-            c["n_mazes"] = rng.randint(1, 6)
-        return ["generate", c, False, rng.choice(["generate", "from_config"]), {}]
+        return near_neighbour(rng, T)
     if r < 0.72:
         c = _ds.rand_cfgspec(rng, max_n=5, max_mazes=4, filters=rng.random() < 0.3, rich_endpoints=False)
         par = rng.random() < 0.3
@@ -391,6 +396,9 @@ def gen_specs(rng: random.Random, tier: str, n: int) -> list[dict]:
                 long_history = rng.random() < 0.04  # state that accumulates a little with every call needs many calls to show
                 for _ in range(rng.randint(40, 70) if long_history else rng.randint(1, 8)):
                     ops.append(rand_noise(rng, T))
+                if _h == 0 and any(isinstance(v, (int, float)) and not isinstance(v, bool) and v == int(v) and v <= 1 for v in T.get("maze_ctor_kwargs", {}).values()):
+                    # the same configuration with that argument spelled in the other numeric type, generated just before
+                    ops.insert(rng.randrange(len(ops) + 1) if not early else rng.randrange(1, len(ops) + 1), near_neighbour(rng, T, "retyped-kwargs"))
                 if not early and rng.random() < 0.5:
                     ops.append(["construct_T"])
                     for _ in range(rng.randint(0, 3)):
